@@ -302,7 +302,21 @@ def run_small_and_many(report):
         ("dot 0.8 units, viewBox 24, default tolerance", 0.1, [svg(24, [poly(dot, 5 * k, 4 * k) for k in range(3)])], 3),
         ("one shape in 34 glyphs", 0.1, [svg(128, [poly(face, (k % 5), (k % 7))], cols=("#%02x%02x40" % (40 + 5 * k, 200 - 4 * k),)) for k in range(34)], 34),
     ]
-    for name, tol, texts, copies in cases:
+    # round 7: two different shapes, each with an exact copy, where the second shape's FIRST contour is an affine image of
+    # the first shape (a frame = a scaled tile outline with a hole): the copies come after both - two stored outlines
+    tile = [(10.0, 10.0), (40.0, 12.0), (42.0, 40.0), (8.0, 38.0)]
+    frame_outer = [(x * 1.5 + 40, y * 1.5 + 30) for x, y in tile]
+    frame_inner = [(70.0, 60.0), (72.0, 80.0), (92.0, 82.0), (90.0, 58.0)]
+    frame = lambda dx, dy: poly(frame_outer, dx, dy) + " " + poly(frame_inner, dx, dy)
+    cases.append(("tile, frame, tile copy, frame copy (the frame's first contour is a scaled tile)", 0.1, [svg(200, [poly(tile), frame(0, 0), poly(tile, 0, 110), frame(60, 70)])], 4, 2, None))
+    # F35 (known): a near-twin of the donor (one vertex moved by 0.2 units: the same normal form, but no affine image
+    # within the tolerance) between the donor and its exact copy takes the donor's slot
+    penta = [(20.0, 20.0), (80.0, 24.0), (86.0, 60.0), (50.0, 72.0), (18.0, 48.0)]
+    twin = [(20.0, 20.0), (80.0, 24.0), (86.0, 60.0), (50.2, 72.0), (18.0, 48.0)]
+    cases.append(("donor, near-twin, exact copy of the donor", 0.1, [svg(200, [poly(penta), poly(twin, 30, 40), poly(penta, 10, 50)])], 3, 2, "F35-near-twin-evicts-donor"))
+    for case_ in cases:
+        name, tol, texts, copies = case_[:4]
+        want_outlines, fid = (case_[4], case_[5]) if len(case_) > 4 else (1, None)
         srcs = [(build.filename_for((0x1F600 + k,)), t, (0x1F600 + k,)) for k, t in enumerate(texts)]
         for fmt in ("picosvg", "glyf_colr_1"):
             over = dict(color_format=fmt, upem=1200, ascender=950, descender=-250, width=1200, reuse_tolerance=tol, keep_glyph_names=True)
@@ -319,18 +333,18 @@ def run_small_and_many(report):
                 docs = svg_docs(font)
                 paths = sum(len(re.findall(r"<path\b", d_[0])) for d_ in docs)
                 uses = sum(len(re.findall(r"<use\b", d_[0])) for d_ in docs)
-                if paths != 1:
-                    case["problem"] = f"{copies} exact translated copies are stored as {paths} <path> elements and {uses} <use> elements in {len(docs)} document(s)"
-                    report_failure(report, f"small_many_{fmt}", case)
-                    return
+                if paths != want_outlines:
+                    case["problem"] = f"{copies} shapes ({want_outlines} distinct up to translation) are stored as {paths} <path> elements and {uses} <use> elements in {len(docs)} document(s)"
+                    if report_failure(report, f"small_many_{fmt}", case, fid):
+                        return
             else:
                 outlines = set()
                 for k in range(len(texts)):
                     outlines |= set(donors_colr(font, e2e.glyph_for(font, (0x1F600 + k,))))
-                if len(outlines) != 1:
-                    case["problem"] = f"{copies} exact translated copies are drawn from {len(outlines)} outline glyphs: {sorted(map(str, outlines))[:6]}"
-                    report_failure(report, f"small_many_{fmt}", case)
-                    return
+                if len(outlines) != want_outlines:
+                    case["problem"] = f"{copies} shapes ({want_outlines} distinct up to translation) are drawn from {len(outlines)} outline glyphs: {sorted(map(str, outlines))[:6]}"
+                    if report_failure(report, f"small_many_{fmt}", case, fid):
+                        return
 
 
 def run_normalize(report, n, rng):
